@@ -2,7 +2,8 @@
 From Rimu Require Import Base Unicode Regex RegexAnalysis RegexParse Str Types Tables Guards State Inline Block
   Frame FrameBlock FrameInst OptionsLemmas MiscLemmas MoreLemmas Plain TableFacts FuelMono.
 
-(* every regular expression of the source has star height <= 1, except the first Block Attributes pattern *)
+(* every regular expression of the source has star height <= 1, except the first Block Attributes pattern and the three
+   attribute scans of injectHtmlAttributes, which step over quoted values with two alternatives that start differently *)
 Theorem C02_star_height :
   forallb (fun nr => Nat.leb (star_height (re_ast (snd nr))) 1 || mem (fst nr) star_height_exceptions) all_regexes = true.
 Proof. exact star_height_le_1. Qed.
